@@ -284,4 +284,241 @@ theorem tagsMap_tagReach (n : NFA) (f : Nat → Nat) (w : List UInt8) (t : Nat) 
   · rintro ⟨t', ⟨q, hp, ht⟩, rfl⟩
     exact ⟨q, (tagsMap_path n f _ _ w).mpr hp, by rw [tagAt_tagsMap, ht]; rfl⟩
 
+
+/-- in a well-formed automaton every reachable state is a state id (no lookup of the model ever takes the
+    `none` branch that stands for Rust's index panic) -/
+theorem reach_lt (n : NFA) (hwf : WF n) {w : List UInt8} {q : Nat} (h : Reach n w q) : q < n.states.length := by
+  have key : ∀ {s t : Nat} {w : List UInt8}, Path (gr n.states) s w t → s < n.states.length → t < n.states.length := by
+    intro s t w p
+    induction p with
+    | refl => exact id
+    | eps he _ ih => exact fun _ => ih (hwf.states.eps he)
+    | sym he _ ih => exact fun _ => ih (hwf.states.edge he)
+  exact key h hwf.start
+
+/-! ### the production shape: `MatcherAutomata::new` -/
+
+/-- `tags_map(|_| c).tag_stop_state(c)`: tag `c` is alive exactly when the operand has matched or one of its
+    own tags is alive -/
+theorem constTag_tagReach (n : NFA) (hwf : WF n) (c : Nat) (w : List UInt8) (t : Nat) :
+    TagReach ((n.tagsMap fun _ => c).tagStop c) w t ↔ t = c ∧ (Lang n w ∨ ∃ t', TagReach n w t') := by
+  unfold TagReach
+  constructor
+  · rintro ⟨q, hp, ht⟩
+    rw [tagStop_reach] at hp
+    have hp' : Reach n w q := (tagsMap_path n _ _ _ w).mp hp
+    rw [tagAt_tagStop] at ht
+    split at ht
+    · rename_i hq
+      simp only [Option.some.injEq] at ht
+      refine ⟨ht.symm, Or.inl ?_⟩
+      have : q = n.stop := hq.1
+      subst this; exact hp'
+    · rw [tagAt_tagsMap] at ht
+      cases h : tagAt n.states q with
+      | none => simp [h] at ht
+      | some t' =>
+        simp [h] at ht
+        exact ⟨ht.symm, Or.inr ⟨t', q, hp', h⟩⟩
+  · rintro ⟨rfl, h⟩
+    have hstop : (n.tagsMap fun _ => t).stop < (n.tagsMap fun _ => t).states.length := by
+      simpa [NFA.tagsMap] using hwf.stop
+    rcases h with h | ⟨t', q, hp, ht⟩
+    · refine ⟨n.stop, ?_, ?_⟩
+      · rw [tagStop_reach]; exact (tagsMap_path n _ _ _ w).mpr h
+      · rw [tagAt_tagStop, if_pos ⟨rfl, hstop⟩]
+    · refine ⟨q, ?_, ?_⟩
+      · rw [tagStop_reach]; exact (tagsMap_path n _ _ _ w).mpr hp
+      · rw [tagAt_tagStop]
+        split
+        · rfl
+        · rw [tagAt_tagsMap, ht]; rfl
+
+/-- one registered matcher: `Either::Left` (payload decoded later; the automaton's own tags are erased) or
+    `Either::Right` (the automaton's tags are the items) -/
+inductive MatcherNFA where
+  | parsed (n : NFA)
+  | items (n : NFA)
+
+def MatcherNFA.nfa : MatcherNFA → NFA
+  | .parsed n => n
+  | .items n => n
+
+/-- the closure body of `MatcherAutomata::new`; `mk i` encodes `MatcherTag::Matcher(i)`, `it t` encodes
+    `MatcherTag::Item(t)` -/
+def wrapMatcher (mk it : Nat → Nat) (i : Nat) : MatcherNFA → NFA
+  | .parsed n => (n.tagsMap fun _ => mk i).tagStop (mk i)
+  | .items n => n.tagsMap it
+
+/-- `MatcherAutomata::new`, before `compile` -/
+def matcherAutomaton (mk it : Nat → Nat) (ms : List MatcherNFA) : NFA :=
+  NFA.choice (ms.mapIdx fun i m => wrapMatcher mk it i m)
+
+theorem wrapMatcher_wf (mk it : Nat → Nat) (i : Nat) (m : MatcherNFA) (h : WF m.nfa) : WF (wrapMatcher mk it i m) := by
+  cases m with
+  | parsed n => exact tagStop_wf _ _ (tagsMap_wf n _ h)
+  | items n => exact tagsMap_wf n _ h
+
+theorem wrapMatcher_lang (mk it : Nat → Nat) (i : Nat) (m : MatcherNFA) (w : List UInt8) :
+    Lang (wrapMatcher mk it i m) w ↔ Lang m.nfa w := by
+  cases m with
+  | parsed n => simp only [wrapMatcher, MatcherNFA.nfa]; rw [tagStop_lang, tagsMap_lang]
+  | items n => simp only [wrapMatcher, MatcherNFA.nfa]; rw [tagsMap_lang]
+
+/-- when matcher `i` makes tag `t` alive after `w`: a parsed matcher shows `Matcher(i)` once it has matched
+    (or while one of its own, erased, tags is alive — none in production, the tag type there is `Void`); an item
+    matcher shows its own tags, wrapped -/
+def Reported (mk it : Nat → Nat) (i : Nat) (m : MatcherNFA) (w : List UInt8) (t : Nat) : Prop :=
+  match m with
+  | .parsed n => t = mk i ∧ (Lang n w ∨ ∃ t', TagReach n w t')
+  | .items n => ∃ t', TagReach n w t' ∧ it t' = t
+
+/-- when which tag is alive in the production automaton -/
+theorem matcherAutomaton_tagReach (mk it : Nat → Nat) (ms : List MatcherNFA) (hwf : ∀ m ∈ ms, WF m.nfa)
+    (w : List UInt8) (t : Nat) :
+    TagReach (matcherAutomaton mk it ms) w t ↔
+      ∃ i m, ms[i]? = some m ∧ Reported mk it i m w t := by
+  unfold matcherAutomaton
+  have hw : ∀ n ∈ ms.mapIdx (fun i m => wrapMatcher mk it i m), WF n := by
+    intro n hn
+    obtain ⟨i, hi⟩ := List.mem_iff_getElem?.mp hn
+    rw [List.getElem?_mapIdx] at hi
+    cases hm : ms[i]? with
+    | none => simp [hm] at hi
+    | some m =>
+      simp [hm] at hi; subst hi
+      exact wrapMatcher_wf mk it i m (hwf m (List.mem_of_getElem? hm))
+  rw [choice_tagReach _ hw]
+  constructor
+  · rintro ⟨n, hn, h⟩
+    obtain ⟨i, hi⟩ := List.mem_iff_getElem?.mp hn
+    rw [List.getElem?_mapIdx] at hi
+    cases hm : ms[i]? with
+    | none => simp [hm] at hi
+    | some m =>
+      simp [hm] at hi; subst hi
+      refine ⟨i, m, hm, ?_⟩
+      cases m with
+      | parsed n => exact (constTag_tagReach n (hwf _ (List.mem_of_getElem? hm)) (mk i) w t).mp h
+      | items n => exact (tagsMap_tagReach n it w t).mp h
+  · rintro ⟨i, m, hm, h⟩
+    refine ⟨wrapMatcher mk it i m, List.mem_iff_getElem?.mpr ⟨i, by rw [List.getElem?_mapIdx, hm]; rfl⟩, ?_⟩
+    cases m with
+    | parsed n => exact (constTag_tagReach n (hwf _ (List.mem_of_getElem? hm)) (mk i) w t).mpr h
+    | items n => exact (tagsMap_tagReach n it w t).mpr h
+
+theorem matcherAutomaton_lang (mk it : Nat → Nat) (ms : List MatcherNFA) (hwf : ∀ m ∈ ms, WF m.nfa)
+    (w : List UInt8) : Lang (matcherAutomaton mk it ms) w ↔ ∃ m ∈ ms, Lang m.nfa w := by
+  unfold matcherAutomaton
+  have hw : ∀ n ∈ ms.mapIdx (fun i m => wrapMatcher mk it i m), WF n := by
+    intro n hn
+    obtain ⟨i, hi⟩ := List.mem_iff_getElem?.mp hn
+    rw [List.getElem?_mapIdx] at hi
+    cases hm : ms[i]? with
+    | none => simp [hm] at hi
+    | some m =>
+      simp [hm] at hi; subst hi
+      exact wrapMatcher_wf mk it i m (hwf m (List.mem_of_getElem? hm))
+  rw [choice_lang _ hw]
+  constructor
+  · rintro ⟨n, hn, h⟩
+    obtain ⟨i, hi⟩ := List.mem_iff_getElem?.mp hn
+    rw [List.getElem?_mapIdx] at hi
+    cases hm : ms[i]? with
+    | none => simp [hm] at hi
+    | some m =>
+      simp [hm] at hi; subst hi
+      exact ⟨m, List.mem_of_getElem? hm, (wrapMatcher_lang mk it i m w).mp h⟩
+  · rintro ⟨m, hm, h⟩
+    obtain ⟨i, hi⟩ := List.mem_iff_getElem?.mp hm
+    exact ⟨wrapMatcher mk it i m, List.mem_iff_getElem?.mpr ⟨i, by rw [List.getElem?_mapIdx, hi]; rfl⟩,
+      (wrapMatcher_lang mk it i m w).mpr h⟩
+
+
+/-- `Reported` through the DFA API of the operand -/
+def ReportedD (mk it : Nat → Nat) (i : Nat) (m : MatcherNFA) (w : List UInt8) (t : Nat) : Prop :=
+  match m with
+  | .parsed n => t = mk i ∧ (n.compile.matches w = true ∨ ∃ t', t' ∈ n.compile.tagsAfter w)
+  | .items n => ∃ t', t' ∈ n.compile.tagsAfter w ∧ it t' = t
+
+theorem reportedD_iff (mk it : Nat → Nat) (i : Nat) (m : MatcherNFA) (w : List UInt8) (t : Nat) :
+    ReportedD mk it i m w t ↔ Reported mk it i m w t := by
+  cases m with
+  | parsed n => simp only [ReportedD, Reported, mem_tagsAfter_iff, SurfProofs.Subset.matches_iff_lang]
+  | items n => simp only [ReportedD, Reported, mem_tagsAfter_iff]
+
+/-- the production shape over expressions: parsed matchers have tag-free grammars, the item matcher is a
+    choice of tagged tag-free alternatives (the literal key table) -/
+inductive MatcherRe where
+  | parsed (e : Re)
+  | items (alts : List (Re × Option Nat))
+
+def MatcherRe.toMatcherNFA : MatcherRe → MatcherNFA
+  | .parsed e => .parsed e.toNFA
+  | .items alts => .items (Re.altT alts).toNFA
+
+def MatcherRe.TagFree : MatcherRe → Prop
+  | .parsed e => Tags.TagFree e
+  | .items alts => ∀ a ∈ alts, Tags.TagFree a.1
+
+/-- specification of the production tag report -/
+def ReportedRe (mk it : Nat → Nat) (i : Nat) (m : MatcherRe) (w : List UInt8) (t : Nat) : Prop :=
+  match m with
+  | .parsed e => t = mk i ∧ e.Matches w
+  | .items alts => ∃ a ∈ alts, ∃ t', a.2 = some t' ∧ it t' = t ∧ a.1.Matches w
+
+theorem matcherRe_wf (m : MatcherRe) : WF m.toMatcherNFA.nfa := by
+  cases m with
+  | parsed e => exact (toNFA_spec e).1
+  | items alts => exact (toNFA_spec _).1
+
+theorem altT_tagReach (alts : List (Re × Option Nat)) (htf : ∀ a ∈ alts, TagFree a.1) (w : List UInt8) (t : Nat) :
+    TagReach (Re.altT alts).toNFA w t ↔ ∃ a ∈ alts, a.2 = some t ∧ a.1.Matches w := by
+  have hwf : ∀ n ∈ (alts.map Re.tagged).map Re.toNFA, WF n := by
+    intro n hn
+    obtain ⟨e, _, rfl⟩ := List.mem_map.mp hn
+    exact (toNFA_spec e).1
+  rw [Re.altT, Re.toNFA, toNFAs_eq, choice_tagReach _ hwf]
+  constructor
+  · rintro ⟨n, hn, h⟩
+    obtain ⟨e, he, rfl⟩ := List.mem_map.mp hn
+    obtain ⟨a, ha, rfl⟩ := List.mem_map.mp he
+    exact ⟨a, ha, (tagged_tagReach a (htf a ha) w t).mp h⟩
+  · rintro ⟨a, ha, h⟩
+    exact ⟨_, List.mem_map.mpr ⟨_, List.mem_map.mpr ⟨a, ha, rfl⟩, rfl⟩, (tagged_tagReach a (htf a ha) w t).mpr h⟩
+
+theorem reportedRe_iff (mk it : Nat → Nat) (i : Nat) (m : MatcherRe) (htf : m.TagFree) (w : List UInt8) (t : Nat) :
+    Reported mk it i m.toMatcherNFA w t ↔ ReportedRe mk it i m w t := by
+  cases m with
+  | parsed e =>
+    simp only [MatcherRe.toMatcherNFA, Reported, ReportedRe]
+    have hno : ¬ ∃ t', TagReach e.toNFA w t' := by
+      rintro ⟨t', q, _, h⟩
+      rw [toNFA_noTags e htf q] at h; cases h
+    rw [(toNFA_spec e).2 w]
+    simp [hno]
+  | items alts =>
+    simp only [MatcherRe.toMatcherNFA, Reported, ReportedRe]
+    constructor
+    · rintro ⟨t', h, rfl⟩
+      obtain ⟨a, ha, h1, h2⟩ := (altT_tagReach alts htf w t').mp h
+      exact ⟨a, ha, t', h1, rfl, h2⟩
+    · rintro ⟨a, ha, t', h1, rfl, h2⟩
+      exact ⟨t', (altT_tagReach alts htf w t').mpr ⟨a, ha, h1, h2⟩, rfl⟩
+
+
+/-- the production-shaped automaton of the line protocol is the one the production theorem speaks about -/
+theorem prodNFA_eq (ms : List (Bool × Re)) :
+    Wire.prodNFA ms = matcherAutomaton (1000 + ·) id
+      (ms.map fun m => if m.1 then MatcherNFA.parsed m.2.toNFA else MatcherNFA.items m.2.toNFA) := by
+  unfold Wire.prodNFA matcherAutomaton
+  congr 1
+  apply List.ext_getElem?
+  intro i
+  simp only [List.getElem?_mapIdx, List.getElem?_map]
+  cases ms[i]? with
+  | none => rfl
+  | some m =>
+    obtain ⟨b, e⟩ := m
+    cases b <;> simp [wrapMatcher]
 end SurfProofs.Tags
